@@ -148,7 +148,7 @@ def tasks(tier, flavours):
                     continue
                 if tier == "quick" and fl == "tokio" and retrieval.endswith("_hash") and retrieval != "read_hash":
                     continue
-                algos = [None] if tier == "quick" else [None, "Sha1", "Sha512", "Sha384", "Xxh3"]
+                algos = [None] if tier == "quick" else ([None, "Sha1", "Sha512", "Sha384", "Xxh3"] if (damage == "replace" and fl == "sync") else [None, "Sha512", "Xxh3"])
                 if tier == "quick" and damage == "replace" and retrieval in ("read", "stream_hash", "copy"):
                     algos = [None, "Sha512", "Xxh3"]
                 for algo in algos:
